@@ -113,6 +113,12 @@ def real_point(tf, p, share=None):
             except Exception:
                 continue
             kw[slot] = share.setdefault(key, kw[slot])
+    if "time" not in kw:
+        # a point WITHOUT a time: only the bare constructor leaves the time unset (any keyword makes the constructor read the clock itself);
+        # the database stamps such a point when it is inserted
+        pt = tf.Point()
+        pt.measurement, pt.tags, pt.fields = kw["measurement"], kw["tags"], kw["fields"]
+        return pt
     return tf.Point(**kw)
 
 
